@@ -28,6 +28,8 @@ class Analysis:
             self.rit.loop_bound = loop_bound
         self._rule_paths = {}
         self._no_generous = set()
+        from . import rules
+        rules.register_clock_reads(self.p)
 
     def _share(self, other: Interp):
         other._summaries = self.it._summaries
